@@ -11,7 +11,6 @@ package main
 
 import (
 	"bytes"
-	"context"
 	"encoding/csv"
 	"encoding/json"
 	"errors"
@@ -66,10 +65,10 @@ func init() {
 
 // ---------------------------------------------------------------- values and schemas of the fragment
 
-func jI(n int) any         { return map[string]any{"i": n} }
-func jH(n int) any         { return map[string]any{"h": n} }
-func jS(s string) any      { return map[string]any{"s": s} }
-func jA(xs ...any) any     { return map[string]any{"a": append([]any{}, xs...)} }
+func jI(n int) any     { return map[string]any{"i": n} }
+func jH(n int) any     { return map[string]any{"h": n} }
+func jS(s string) any  { return map[string]any{"s": s} }
+func jA(xs ...any) any { return map[string]any{"a": append([]any{}, xs...)} }
 func jO(kvs ...any) any { // k1, v1, k2, v2 …
 	l := []any{}
 	for i := 0; i+1 < len(kvs); i += 2 {
@@ -594,7 +593,8 @@ func runC06(c hx.Case) any {
 	in := &openapi3filter.RequestValidationInput{Request: req,
 		Options: &openapi3filter.Options{ExcludeReadOnlyValidations: jbool(c, "exro"), MultiError: jbool(c, "multi"),
 			SkipSettingDefaults: jbool(c, "skipDefaults")}}
-	verr := openapi3filter.ValidateRequestBody(context.Background(), in, rb)
+	validate := c06Entry(jstr(c, "entry"), in, rb)
+	verr := validate()
 	out := map[string]any{"ok": verr == nil, "outcome": c06Classify(verr)}
 	if verr != nil {
 		out["msg"] = strings.SplitN(verr.Error(), "\n", 2)[0]
@@ -603,7 +603,7 @@ func runC06(c hx.Case) any {
 	if n, _ := jnum(c["repeat"]); n > 0 {
 		rep := []any{c06Classify(verr)}
 		for i := 1; i < n; i++ {
-			rep = append(rep, c06Classify(openapi3filter.ValidateRequestBody(context.Background(), in, rb)))
+			rep = append(rep, c06Classify(validate()))
 		}
 		out["repeated"] = rep
 	}
@@ -1939,6 +1939,9 @@ func randCase(r *hx.Rng) hx.Case {
 	}
 	if r.Chance(5) && jstr(c["body"].(map[string]any), "text") == "" {
 		c["emptyReader"] = true
+	}
+	if r.Chance(12) {
+		c["entry"] = "request"
 	}
 	if r.Chance(25) {
 		if r.Chance(15) && jbool(c, "skipDefaults") {
